@@ -113,11 +113,11 @@ func (m *Machine) step(f *frame, in ssa.Instruction) {
 		f.env[x] = m.get(f, x.Tuple).(TupleV).vs[x.Index]
 	case *ssa.FieldAddr:
 		p := m.get(f, x.X).(Ptr)
-		if p.obj == nil {
+		if p.obj == nil && len(p.alts) == 0 {
 			m.oblige(m.cbool(false), "nil pointer dereference", m.prog.Fset.Position(x.Pos()).String())
 			m.fail("nil")
 		}
-		f.env[x] = Ptr{obj: p.obj, path: append(append([]PathElem{}, p.path...), PathElem{k: x.Field})}
+		f.env[x] = ptrExtend(p, PathElem{k: x.Field})
 	case *ssa.Field:
 		f.env[x] = m.get(f, x.X).(StructV).fields[x.Field]
 	case *ssa.IndexAddr:
